@@ -102,8 +102,8 @@ def run(cmd, cwd, env, timeout=600):
         return R()
 
 
-def govc_failed(unit, repo, work, timeout="8"):
-    r = run([os.path.join(ROOT, "bin", "govc"), "-repo", repo, "-work", work, "-timeout", timeout] + UNITS[unit]["govc"], ROOT, dict(os.environ, GOPROXY="off"), timeout=1500)
+def govc_failed(unit, repo, work, timeout="15"):
+    r = run([os.path.join(ROOT, "bin", "govc"), "-repo", repo, "-work", work, "-timeout", timeout, "-jobs", "5"] + UNITS[unit]["govc"], ROOT, dict(os.environ, GOPROXY="off"), timeout=1500)
     failed = set()
     for l in (r.stdout + r.stderr).splitlines():
         m = re.match(r"^(FAILED|ERROR) (\S+)", l)
